@@ -1,6 +1,7 @@
 package main
 
 import (
+	"strconv"
 	"fmt"
 	"math"
 	"math/rand"
@@ -73,8 +74,8 @@ func numFormValue(s string) float64 {
 			es = es[1:]
 		}
 		es = strings.TrimLeft(es, "0")
-		if len(es) > 5 {
-			exp = 100000
+		if len(es) > 12 {
+			exp = 1 << 40 // (decides the value whatever the digits are: no digit string is that long)
 		} else {
 			fmt.Sscanf(es, "%d", &exp)
 		}
@@ -392,6 +393,27 @@ func checkC04Numeric(c *Ctx) {
 			rd(n)+fmt.Sprintf("e-%d", n-3), rd(n)+"."+rd(40)+fmt.Sprintf("E-%d", n-17), rd(n)+fmt.Sprintf("*10^-%d", n+300),
 			"0."+zeros+"1"+fmt.Sprintf("e+%d", n+1), "0."+zeros+rd(30)+fmt.Sprintf("*10^+%d", n+5), rd(5)+"."+rd(n)+"e+2",
 			"137975"+zeros+"."+strings.Repeat("0", 26)+fmt.Sprintf("E-%d", n-2))
+	}
+	flush()
+	// six-digit exponents and a hundred thousand leading zeros (before the point: the manual
+	// allows 0129.8; after the point: cancelled by the exponent)
+	for _, n := range []int{9990, 9999, 10000, 10001, 20000, 100000, 100003} {
+		zeros := strings.Repeat("0", n)
+		strs = append(strs,
+			zeros+"1", "-"+zeros+"7e+3", zeros+"1.5", "+"+zeros+"12345*^-2", zeros+"."+zeros+"25E"+strconv.Itoa(n),
+			"0."+zeros+"1e+"+strconv.Itoa(n+1), "0."+zeros+"1*^"+strconv.Itoa(n+1), "-0."+zeros+"25*10^+"+strconv.Itoa(n+2), "0."+zeros+"1E+"+strconv.Itoa(n+301),
+			"0."+zeros+"1e+"+strconv.Itoa(n+400), "0."+zeros+"1e"+strconv.Itoa(n-400), "1"+zeros+"e-"+strconv.Itoa(n), "1"+zeros+"."+zeros+"e-"+strconv.Itoa(n-2), "3"+zeros+"*10^-"+strconv.Itoa(n+330))
+	}
+	flush()
+	// exponents at and beyond the edges of the machine integers, after short and very long
+	// digit strings: the value is an infinity or a zero of the right sign, whatever the length
+	for _, n := range []int{0, 4, 298, 699, 700, 701, 702, 1500} {
+		zeros := strings.Repeat("0", n)
+		for _, e := range []string{"2147483647", "2147483648", "4294967296", "9223372036854775000", "9223372036854775806", "9223372036854775807", "9223372036854775808", "18446744073709551615", "18446744073709551616", "99999999999999999999999999"} {
+			for _, sg := range []string{"", "+", "-"} {
+				strs = append(strs, "1"+zeros+"*^"+sg+e, "-7"+zeros+"e"+sg+e, "12"+zeros+".5E"+sg+e, "0."+zeros+"3*10^"+sg+e, "+4"+zeros+"."+zeros+"e"+sg+e)
+			}
+		}
 	}
 	flush()
 }
@@ -819,7 +841,7 @@ func tokDesc(ts []Tok) string {
 }
 
 func checkC04(c *Ctx) {
-	c.rule = "(1) alphabet: IdInRange for every code point in [-70000, 0x110400) against a linear scan of the range table (hook H6), table sortedness, lexer agreement on lone characters; (2) numeric form: every string up to length 5 (quick) / 7 (thorough) over {0,1,7,+,-,.,e,E,*,^,x}, every live prefix of a valid number x every suffix up to length 3, random long mutated numbers, digit strings of 300 … 3000 digits before / after the point brought back into range by the exponent: classification number / rejected / name by the documented form (anchored regexp) and value = correctly rounded double via math/big; (3) segmentation: random token sequences (34 keywords, names over CJK/Latin/Greek/kana/hangul with embedded + - * / . % _ and stray keyword glyphs, backtick names containing keywords, numbers, operators, both punctuation forms, literals, comments) rendered with the fewest blanks the rules require must tokenise to exactly that sequence with in-bounds non-overlapping spans; dense unspaced strings over keyword glyphs against a leftmost-greedy segmenter. distinct_nontrivial = table entries + distinct (class, digit-collapsed shape) of numeric strings + distinct (token-kind sequence, source prefix)"
+	c.rule = "(1) alphabet: IdInRange for every code point in [-70000, 0x110400) against a linear scan of the range table (hook H6), table sortedness, lexer agreement on lone characters; (2) numeric form: every string up to length 5 (quick) / 7 (thorough) over {0,1,7,+,-,.,e,E,*,^,x}, every live prefix of a valid number x every suffix up to length 3, random long mutated numbers, digit strings of 300 … 3000 digits before / after the point brought back into range by the exponent, exponents at and beyond the edges of the 32- and 64-bit integers after digit strings of 1 … 1500 digits, up to 100003 leading zeros before / after the point with five- and six-digit exponents: classification number / rejected / name by the documented form (anchored regexp) and value = correctly rounded double via math/big; (3) segmentation: random token sequences (34 keywords, names over CJK/Latin/Greek/kana/hangul with embedded + - * / . % _ and stray keyword glyphs, backtick names containing keywords, numbers, operators, both punctuation forms, literals, comments) rendered with the fewest blanks the rules require must tokenise to exactly that sequence with in-bounds non-overlapping spans; dense unspaced strings over keyword glyphs against a leftmost-greedy segmenter. distinct_nontrivial = table entries + distinct (class, digit-collapsed shape) of numeric strings + distinct (token-kind sequence, source prefix)"
 	c.assumptions = []string{"keyword spellings and token type codes are transcribed from the manual / public constants", "'.12'-style strings are not asserted", "alphabet monitor is exhaustive over all code points; lexer agreement is sampled in quick and BMP-exhaustive in thorough"}
 	checkC04Alphabet(c)
 	checkC04Numeric(c)
